@@ -937,7 +937,40 @@ func init() {
 
 	// ---- net/textproto, net/http helpers ---------------------------------------------------------
 	ext["net/textproto.CanonicalMIMEHeaderKey"] = func(fr *frame, a []value) value {
-		return textproto.CanonicalMIMEHeaderKey(fr.i.cstr(a[0], "CanonicalMIMEHeaderKey"))
+		i := fr.i
+		if s, ok := a[0].(string); ok {
+			return textproto.CanonicalMIMEHeaderKey(s)
+		}
+		// symbolic name: invalid field bytes => unchanged; otherwise upper-case the first letter and every letter
+		// after '-', lower-case the rest (the documented canonical form), as one term per byte
+		bs := strBytes(a[0])
+		ts := i.ts
+		in := func(b *Term, lo, hi byte) *Term {
+			return ts.And(ts.Cmp(OpBVUle, ts.Const(uint64(lo), 8), b), ts.Cmp(OpBVUle, b, ts.Const(uint64(hi), 8)))
+		}
+		valid := ts.tt
+		for _, v := range bs {
+			b := i.toTerm(v, 8)
+			ok := ts.Or(ts.Or(in(b, 'a', 'z'), in(b, 'A', 'Z')), in(b, '0', '9'))
+			for _, c := range []byte("!#$%&'*+-.^_`|~") {
+				ok = ts.Or(ok, ts.Eq(b, ts.Const(uint64(c), 8)))
+			}
+			valid = ts.And(valid, ok)
+		}
+		if !i.decide(valid) {
+			return a[0]
+		}
+		out := make([]value, len(bs))
+		upper := ts.tt
+		for k, v := range bs {
+			b := i.toTerm(v, 8)
+			up := ts.Ite(in(b, 'a', 'z'), ts.BV(OpBVSub, b, ts.Const(32, 8)), b)
+			lo := ts.Ite(in(b, 'A', 'Z'), ts.BV(OpBVAdd, b, ts.Const(32, 8)), b)
+			c := ts.Ite(upper, up, lo)
+			out[k] = fromTerm(c, false)
+			upper = ts.Eq(c, ts.Const('-', 8))
+		}
+		return mkStr(out)
 	}
 	ext["strconv.Itoa"] = func(fr *frame, a []value) value {
 		return strconv.Itoa(fr.i.cint(a[0], "Itoa"))
